@@ -10,6 +10,7 @@ import (
 	"time"
 
 	"github.com/meshplus/bitxhub/pkg/order/syncer"
+	"github.com/meshplus/bitxhub/verifharness/hx"
 )
 
 // ranges: one JSON object per line {"fetch":f,"begin":b,"end":e,"hostile":bool}
@@ -34,8 +35,9 @@ func rangesOne(in rangesIn) rangesOut {
 	return rangesOut{Ranges: rs}
 }
 
-func init() {
-	drivers["ranges-one"] = func(args []string) error {
+func main() {
+	cmds := map[string]func(args []string) error{}
+	cmds["ranges-one"] = func(args []string) error {
 		f, _ := strconv.ParseUint(args[0], 10, 64)
 		b, _ := strconv.ParseUint(args[1], 10, 64)
 		e, _ := strconv.ParseUint(args[2], 10, 64)
@@ -45,7 +47,7 @@ func init() {
 		}
 		return json.NewEncoder(os.Stdout).Encode(out)
 	}
-	drivers["ranges"] = func(args []string) error {
+	cmds["ranges"] = func(args []string) error {
 		sc := bufio.NewScanner(os.Stdin)
 		sc.Buffer(make([]byte, 1<<20), 1<<26)
 		w := bufio.NewWriter(os.Stdout)
@@ -83,4 +85,5 @@ func init() {
 		}
 		return sc.Err()
 	}
+	hx.Main(cmds)
 }
